@@ -496,3 +496,34 @@ func H_json(shape, n int) {
 	verifAssert(ok && rest == "", "json output is not well-formed JSON")
 	verifAssert(jsonSame(v, back), "json output does not parse to a value structurally equal to the input")
 }
+
+var c16PrintDirs = []struct {
+	text string
+	name string
+	args []data.Value
+}{
+	{"|json", "json", nil},
+	{"|truncate:5", "truncate", []data.Value{data.Int(5)}},
+	{"|escapeUri", "escapeUri", nil},
+	{"|escapeJsString", "escapeJsString", nil},
+	{"|changeNewlineToBr", "changeNewlineToBr", nil},
+	{"|insertWordBreaks:2", "insertWordBreaks", []data.Value{data.Int(2)}},
+	{"|escapeHtml", "escapeHtml", nil},
+}
+
+// H_printPath: the print command applies a directive to the value whatever the value is: for a
+// string of n symbolic bytes (n = 0: the empty string) {$x|d} and {$x|d|noAutoescape} render
+// exactly what the directive function returns for it, also as the value of a quoted attribute.
+func H_printPath(d, n int) {
+	x := verifString(n)
+	verifAssume(utf8.ValidString(x))
+	pd := c16PrintDirs[d]
+	tofu := verifMustCompile("{namespace n}\n/** @param x */\n{template .t autoescape=\"false\"}\n{$x" + pd.text + "}|<a b='{$x" + pd.text + "|noAutoescape}'>\n{/template}\n")
+	out, err := verifRender(tofu, "n.t", data.Map{"x": data.String(x)})
+	verifObserve("x", x)
+	verifObserve("out", out)
+	verifAssert(err == nil, "print with a directive failed")
+	want, failed := c16Apply(pd.name, data.String(x), pd.args...)
+	verifAssert(!failed, "directive panicked")
+	verifAssert(out == want+"|<a b='"+want+"'>", "a print command does not write what its directive returns for the value")
+}
